@@ -109,7 +109,15 @@ func checkC12(c C12Case) *Violation {
 		}
 	}
 	// 4. -o FILE holds exactly the stdout bytes; stdout stays empty
-	o := Run{Argv: append(append([]string{}, c.Argv...), "-o", "@out.bin"), Stdin: c.Input, OutArg: "out.bin", Files: c.Files}.Exec()
+	// the -o path is a fresh file in one run and an existing, longer file (left by "an earlier run") in the other
+	ofiles := map[string]string{}
+	for k, v := range c.Files {
+		ofiles[k] = v
+	}
+	if len(c.Input)%2 == 0 {
+		ofiles["out.bin"] = staleContent
+	}
+	o := Run{Argv: append(append([]string{}, c.Argv...), "-o", "@out.bin"), Stdin: c.Input, OutArg: "out.bin", Files: ofiles}.Exec()
 	if (o.Exit == 0) != (ref.Exit == 0) {
 		return vio("output-path", "%s: with -o the command exits %d, without %d%s", what, o.Exit, ref.Exit, ctx)
 	}
@@ -120,11 +128,14 @@ func checkC12(c C12Case) *Violation {
 		if !o.HasOut || !bytes.Equal(o.OutFile, ref.Stdout) {
 			return vio("output-path", "%s: the -o file (%d bytes, present=%v) is not the stdout of the plain run (%d bytes)%s", what, len(o.OutFile), o.HasOut, len(ref.Stdout), ctx)
 		}
-	} else if o.HasOut && len(o.OutFile) != 0 {
+	} else if o.HasOut && len(o.OutFile) != 0 && string(o.OutFile) != staleContent {
 		return vio("output-path", "%s fails but leaves %d bytes in the -o file%s", what, len(o.OutFile), ctx)
 	}
 	return nil
 }
+
+// staleContent is what an earlier, longer result may have left at the -o path.
+var staleContent = strings.Repeat("stale output of an earlier run\n", 12000)
 
 func cmdName(argv []string) string {
 	var r []string
